@@ -54,6 +54,11 @@ def gen_cases(tier, seed):
                               "seed": rnd.randrange(10**6), "latency": None if kind == "mem" else rnd.choice([None, 0.002])})
                 cases[-1]["expired"] = mode in ("all", "steady") and cases[-1]["seed"] % 3 == 0
                 cases[-1]["past_until"] = mode in ("all", "steady", "reject") and cases[-1]["seed"] % 2 == 1
+    # an application that takes its time between two messages: whatever the consumer has fetched ahead waits in its local buffer
+    for kind in ("mem", "redis", "rabbit"):
+        for n, mu in ((12, None), (25, None), (25, 8), (60, None)):
+            cases.append({"kind": kind, "n": n, "mix": "own", "mode": "all", "prio": rnd.choice([0, 5, 9]), "mu": mu, "seed": rnd.randrange(10**6), "latency": None if kind == "mem" else 0.002, "expired": False,
+                          "past_until": False, "slow_app": 0.3})
     # Redis, wire latency: more steady-state runs (a producer's command landing between two commands of the consumer's scan is
     # a matter of phase)
     for rep in range(6 if tier == "quick" else 20):
@@ -234,6 +239,9 @@ async def scenario(loop, case, out, stats, fps, samples):
                 if key is None:
                     break
                 await mb.ack(key)
+                if case.get("slow_app"):
+                    # an application slower than the consumer's prefetching: the local buffer fills up behind it
+                    await asyncio.sleep(case["slow_app"])
         elif mode == "reject":
             stats["mode_reject"] += 1
             rejected = set()
